@@ -7,6 +7,7 @@ package fw
 import (
 	"bufio"
 	"bytes"
+	"context"
 	"crypto/sha1"
 	"encoding/hex"
 	"encoding/json"
@@ -248,7 +249,13 @@ func Drive(c Check, tier string, verifDir string, deadline time.Duration) int {
 
 func runWorker(self string, u Unit) Result {
 	in, _ := json.Marshal(u)
-	cmd := exec.Command(self, "worker")
+	limit := 4 * time.Minute
+	if u.Tier == "thorough" {
+		limit = 20 * time.Minute
+	}
+	ctx, cancel := context.WithTimeout(context.Background(), limit)
+	defer cancel()
+	cmd := exec.CommandContext(ctx, self, "worker")
 	cmd.Stdin = bytes.NewReader(in)
 	var out, errb bytes.Buffer
 	cmd.Stdout = &out
@@ -266,6 +273,10 @@ func runWorker(self string, u Unit) Result {
 		payload = out.Bytes()[i+len("@@RESULT "):]
 	}
 	_ = idx
+	if ctx.Err() != nil {
+		r.Err = fmt.Sprintf("worker for unit %s/%s %s exceeded %s of wall clock and was killed (a hang in the code under test or a unit sized too large)", u.Check, u.Kind, string(u.Spec), limit)
+		return r
+	}
 	if payload == nil || json.Unmarshal(bytes.TrimSpace(payload), &r) != nil {
 		tail := errb.String()
 		if len(tail) > 3000 {
